@@ -183,4 +183,135 @@ theorem parseStringsGo_inv : ∀ (f : Nat) (b : Bytes) (l : List Bytes),
 /-- the principals field is canonical -/
 theorem parseStrings_inv {b : Bytes} {l : List Bytes} (h : parseStrings b = some l) : b = putStrings l :=
   parseStringsGo_inv _ _ _ h
+theorem nat_xor255 : ∀ n, n < 256 → n ^^^ 255 = 255 - n := by decide +kernel
+theorem xor255_toNat (b : UInt8) : (b ^^^ 255).toNat = 255 - b.toNat := by
+  rw [UInt8.toNat_xor]; exact nat_xor255 _ (u8_lt b)
+theorem xor255_xor255 (b : UInt8) : (b ^^^ 255) ^^^ 255 = b := by
+  apply UInt8.toNat_inj.mp
+  rw [xor255_toNat, xor255_toNat]
+  have := u8_lt b
+  omega
+
+theorem map_xor255_twice (l : Bytes) : (l.map (fun x => x ^^^ 255)).map (fun x => x ^^^ 255) = l := by
+  induction l with
+  | nil => rfl
+  | cons a t ih => simp only [List.map_cons, xor255_xor255, ih]
+
+theorem beNat_foldl (l : Bytes) (a : Nat) :
+    l.foldl (fun a b => a * 256 + b.toNat) a = a * 256 ^ l.length + beNat l := by
+  induction l generalizing a with
+  | nil => simp [beNat]
+  | cons x t ih =>
+    simp only [List.foldl_cons, List.length_cons, beNat]
+    rw [ih, ih (0 * 256 + x.toNat)]
+    simp only [Nat.zero_mul, Nat.zero_add, Nat.pow_succ]
+    rw [Nat.add_mul, Nat.mul_assoc, Nat.add_assoc, Nat.mul_comm 256]
+
+theorem beNat_cons (x : UInt8) (l : Bytes) : beNat (x :: l) = x.toNat * 256 ^ l.length + beNat l := by
+  have := beNat_foldl l (0 * 256 + x.toNat)
+  simp only [Nat.zero_mul, Nat.zero_add] at this
+  simpa [beNat] using this
+
+theorem natBytesGo_zero (f : Nat) (acc : Bytes) : natBytesGo f 0 acc = acc := by
+  cases f <;> simp [natBytesGo]
+
+theorem natBytesGo_val : ∀ (f n : Nat) (acc : Bytes), n ≤ f →
+    beNat (natBytesGo f n acc) = n * 256 ^ acc.length + beNat acc := by
+  intro f
+  induction f with
+  | zero => intro n acc h; have : n = 0 := by omega
+            subst this; simp [natBytesGo]
+  | succ f ih =>
+    intro n acc h
+    by_cases hn : n = 0
+    · subst hn; simp [natBytesGo]
+    · simp only [natBytesGo, hn, ↓reduceIte]
+      rw [ih (n / 256) _ (by omega), beNat_cons, u8_toNat, List.length_cons, Nat.pow_succ]
+      have := Nat.div_add_mod n 256
+      calc n / 256 * (256 ^ acc.length * 256) + (n % 256 * 256 ^ acc.length + beNat acc)
+          = (256 * (n / 256) + n % 256) * 256 ^ acc.length + beNat acc := by
+            rw [Nat.add_mul, Nat.mul_comm (256 ^ acc.length) 256, ← Nat.mul_assoc, Nat.mul_comm (n/256) 256, Nat.add_assoc]
+        _ = n * 256 ^ acc.length + beNat acc := by rw [this]
+
+theorem natBytes_val (n : Nat) : beNat (natBytes n) = n := by
+  have := natBytesGo_val n n [] (Nat.le_refl _)
+  simpa [natBytes, beNat] using this
+
+theorem natBytesGo_head : ∀ (f n : Nat) (acc : Bytes), n ≤ f → n ≠ 0 →
+    ∃ b t, natBytesGo f n acc = b :: t ∧ b.toNat ≠ 0 := by
+  intro f
+  induction f with
+  | zero => intro n acc h hn; omega
+  | succ f ih =>
+    intro n acc h hn
+    simp only [natBytesGo, hn, ↓reduceIte]
+    by_cases hq : n / 256 = 0
+    · rw [hq, natBytesGo_zero]
+      refine ⟨_, _, rfl, ?_⟩
+      rw [u8_toNat]; omega
+    · exact ih (n / 256) _ (by omega) hq
+
+theorem natBytes_head (n : Nat) (hn : n ≠ 0) : ∃ b t, natBytes n = b :: t ∧ b.toNat ≠ 0 :=
+  natBytesGo_head n n [] (Nat.le_refl _) hn
+
+theorem natBytes_zero : natBytes 0 = [] := rfl
+
+/-- `parseInt ∘ marshalInt = id` on every integer -/
+theorem mpintVal_mpintBytes (n : Int) : mpintVal (mpintBytes n) = n := by
+  unfold mpintBytes
+  by_cases hneg : n < 0
+  · simp only [hneg, ↓reduceIte]
+    by_cases hm : (-n - 1).toNat = 0
+    · rw [hm, natBytes_zero]
+      simp only [List.map_nil]
+      have : n = -1 := by omega
+      subst this
+      show mpintVal [255] = -1
+      decide
+    · obtain ⟨b, t, hbt, hb⟩ := natBytes_head _ hm
+      have hv := natBytes_val (-n - 1).toNat
+      rw [hbt] at hv ⊢
+      simp only [List.map_cons]
+      have hx := xor255_toNat b
+      by_cases hlt : (b ^^^ 255).toNat < 128
+      · simp only [hlt, ↓reduceIte, mpintVal]
+        have h255 : (255 : UInt8).toNat ≥ 128 := by decide
+        simp only [h255, ↓reduceIte, List.map_cons, xor255_xor255, map_xor255_twice]
+        have : ((255 : UInt8) ^^^ 255) = 0 := by decide
+        rw [this, beNat_cons]
+        simp only [UInt8.toNat_zero, Nat.zero_mul, Nat.zero_add]
+        rw [hv]; omega
+      · simp only [hlt, ↓reduceIte, mpintVal]
+        have : (b ^^^ 255).toNat ≥ 128 := by omega
+        simp only [this, ↓reduceIte, List.map_cons, xor255_xor255, map_xor255_twice]
+        rw [hv]; omega
+  · simp only [hneg, ↓reduceIte]
+    by_cases hz : n = 0
+    · simp [hz, mpintVal]
+    · simp only [hz, ↓reduceIte]
+      have hm : n.toNat ≠ 0 := by omega
+      obtain ⟨b, t, hbt, hb⟩ := natBytes_head _ hm
+      have hv := natBytes_val n.toNat
+      rw [hbt] at hv ⊢
+      by_cases hge : b.toNat ≥ 128
+      · simp only [hge, ↓reduceIte, mpintVal]
+        have : ¬ ((0 : UInt8).toNat ≥ 128) := by decide
+        simp only [this, ↓reduceIte]
+        rw [beNat_cons]
+        simp only [UInt8.toNat_zero, Nat.zero_mul, Nat.zero_add]
+        rw [hv]; omega
+      · simp only [hge, ↓reduceIte, mpintVal]
+        rw [hv]; omega
+
+theorem parseMpint_putMpint (n : Int) (h : (mpintBytes n).length < 4294967296) (r : Bytes) :
+    parseMpint (putMpint n ++ r) = some (n, r) := by
+  have e := parseString_putString (mpintBytes n) h r
+  rw [parseMpint, putMpint, e]
+  show some (mpintVal (mpintBytes n), r) = some (n, r)
+  rw [mpintVal_mpintBytes]
+
+/-- mpints are NOT canonical on the parse side: redundant sign-extension bytes are accepted -/
+theorem mpint_noncanonical : mpintVal [0, 1] = mpintVal [1] ∧ mpintBytes (mpintVal [0, 1]) = [1] := by
+  decide +kernel
+
 end XC.C38
